@@ -1356,3 +1356,8 @@ pub fn run(ctx: &mut Ctx) {
 pub fn replay(v: &serde_json::Value, obs: &mut Obs) -> Result<CheckResult, String> {
   replay_with::<Case>(v, obs, check)
 }
+
+/// libFuzzer entry: arbitrary bytes offered to `unpack` (framing rule + trailing-bytes relation).
+pub fn fuzz_decode(data: &[u8]) -> Option<serde_json::Value> {
+  serde_json::to_value(Case::Bytes { data: data.to_vec() }).ok()
+}
